@@ -1074,3 +1074,125 @@ func TestC11_Sequences(t *testing.T) {
 		}
 	})
 }
+
+// ---- component lists with an entry that holds no component ----
+
+type c11NilIn struct {
+	Prof   Prof `json:"prof"`
+	Filled bool `json:"filled"`
+	Mode   int  `json:"mode"`  // 1 = SetSoftwareComponents, 2 = container.Add, 3 = container.Replace
+	Typed  bool `json:"typed"` // the empty entry is a nil *SwComponent (else a nil interface value)
+	Pos    int  `json:"pos"`   // 0 = first, 1 = last, 2 = the only entry
+	// Foreign: the entry is not empty but a VALID component of another
+	// ISwComponent implementation (a type embedding SwComponent)
+	Foreign bool `json:"foreign,omitempty"`
+}
+
+// A list entry that holds no component (a nil interface value, or a nil
+// pointer of the component type) is not a component validation accepts: the
+// setter refuses the list - it neither panics nor takes it - and the
+// claims-set stays as it was.
+var c11NilKind = registerKind("c11nil", func(in c11NilIn) (msg string) {
+	c, _, _ := c11Start(in.Prof, in.Filled)
+	before := ObserveGetters(c)
+	var empty psatoken.ISwComponent
+	if in.Typed {
+		empty = (*psatoken.SwComponent)(nil)
+	}
+	good := libComp(baseValid(in.Prof, 1).Comps[0])
+	if in.Foreign {
+		empty = &foreignComp{SwComponent: *libComp(baseValid(in.Prof, 2).Comps[0])}
+	}
+	var list []psatoken.ISwComponent
+	switch in.Pos {
+	case 0:
+		list = []psatoken.ISwComponent{empty, good}
+	case 1:
+		list = []psatoken.ISwComponent{good, empty}
+	default:
+		list = []psatoken.ISwComponent{empty}
+	}
+	what := []string{"", "SetSoftwareComponents", "container Add", "container Replace"}[in.Mode]
+	defer func() {
+		if r := recover(); r != nil {
+			msg = fmt.Sprintf("%s given a list whose entry %d holds no component (typed nil: %v) panics: %v", what, in.Pos%2*(len(list)-1), in.Typed, r)
+		}
+	}()
+	var err error
+	switch in.Mode {
+	case 1:
+		err = c.SetSoftwareComponents(list)
+	default:
+		sc := swContainerOf(c)
+		if sc == nil || (reflect.ValueOf(sc).Kind() == reflect.Pointer && reflect.ValueOf(sc).IsNil()) {
+			return ""
+		}
+		if in.Mode == 2 {
+			err = sc.Add(list...)
+		} else {
+			err = sc.Replace(list)
+		}
+	}
+	if in.Foreign {
+		// whether a component of another implementation is taken is the
+		// container's business; if it IS taken, the claims-set holds it
+		if err != nil {
+			if after := ObserveGetters(c); after != before {
+				return fmt.Sprintf("%s refused a list with a component of another ISwComponent implementation (%v) but the claims-set changed", what, err)
+			}
+			return ""
+		}
+		got, gerr := c.GetSoftwareComponents()
+		if gerr != nil {
+			return fmt.Sprintf("%s accepted a list with a valid component of another ISwComponent implementation, but the claims-set then cannot return its components (%v): the setter accepted what validation rejects", what, gerr)
+		}
+		for i, g := range got {
+			if isNilComp(g) {
+				return fmt.Sprintf("%s accepted a list with a valid component of another ISwComponent implementation, but the claims-set then holds NO component at position %d", what, i)
+			}
+		}
+		return ""
+	}
+	if err == nil {
+		return fmt.Sprintf("%s accepts a list with an entry that holds no component (typed nil: %v, position %d of %d); validation does not accept such a list", what, in.Typed, in.Pos, len(list))
+	}
+	if after := ObserveGetters(c); after != before {
+		return fmt.Sprintf("%s refused a list with an empty entry (%v) but the claims-set changed:\n  before %s\n  after  %s", what, err, truncate(before, 300), truncate(after, 300))
+	}
+	return ""
+})
+
+func isNilComp(sc psatoken.ISwComponent) bool {
+	if sc == nil {
+		return true
+	}
+	v := reflect.ValueOf(sc)
+	return v.Kind() == reflect.Pointer && v.IsNil()
+}
+
+func TestC11_NilEntries(t *testing.T) {
+	st := NewStats("C11", "TestC11_NilEntries", "enumeration: SetSoftwareComponents / the container's Add / Replace x both profiles x fresh and fully populated claims-set x a list whose first / last / only entry holds no component (a nil interface value, a nil *SwComponent), or is a valid component of ANOTHER ISwComponent implementation. Oracle: for an empty entry the call returns an error (no panic, not accepted) and every getter gives what it gave before; a foreign component is either refused (nothing changes) or the claims-set then returns its components, none of them empty. Non-trivial = every case; distinct = the case")
+	st.Exhaustive = true
+	defer st.Flush(t)
+	for _, p := range []Prof{P1, P2} {
+		for _, filled := range []bool{false, true} {
+			for mode := 1; mode <= 3; mode++ {
+				for _, typed := range []bool{false, true} {
+					for pos := 0; pos < 3; pos++ {
+						for _, foreign := range []bool{false, true} {
+							if foreign && typed {
+								continue
+							}
+							in := c11NilIn{p, filled, mode, typed, pos, foreign}
+							msg := c11NilKind(in)
+							st.Case(fmt.Sprintf("%+v", in), "nil-entry")
+							if msg != "" {
+								reportCase(t, "C11", "c11nil", in, msg)
+							}
+						}
+					}
+				}
+			}
+		}
+	}
+}
